@@ -9,7 +9,8 @@ import (
 func marshal(p *lang.Process, v any) ([]byte, error) {
 	switch t := v.(type) {
 	case [][]string:
-		if lang.GetDataTypeLayout(p.Stdin.GetDataType()) != lang.DataTypeIsTable {
+		if len(t) == 0 || lang.GetDataTypeLayout(p.Stdin.GetDataType()) != lang.DataTypeIsTable {
+			// not a table, or a table without even a heading row
 			break
 		}
 
